@@ -1416,6 +1416,24 @@ func c05MergeCoverage(c *Ctx, ct collapsingType) {
 	}
 	nPaths, nAdds := 0, 0
 	bad := ""
+	// isBinAdd: a store `s.bins[..] = s.bins[..] + o.bins[..]`
+	isBinAdd := func(e Effect) bool {
+		if e.Kind != "store" || e.Addr.Op != "index" || !e.Val.isBin("+") {
+			return false
+		}
+		if who, name := fld(e.Addr.Args[0]); who != "s" || name != dr.bins {
+			return false
+		}
+		for i := 0; i < 2; i++ {
+			if src := stripVers(e.Val.Args[i]); src.Op == "index" {
+				if who, name := fld(src.Args[0]); who == "o" && name == dr.bins {
+					return true
+				}
+			}
+		}
+		return false
+	}
+	allAdds, liveAdds := map[ssa.Instruction]bool{}, map[ssa.Instruction]bool{}
 	for _, p := range paths {
 		same := false
 		for _, cd := range p.Conds {
@@ -1425,6 +1443,11 @@ func c05MergeCoverage(c *Ctx, ct collapsingType) {
 		}
 		if !same {
 			continue
+		}
+		for _, e := range p.Effects {
+			if isBinAdd(e) && e.InLoop {
+				allAdds[e.Instr] = true
+			}
 		}
 		// drop paths whose comparisons of one and the same difference contradict each other (the executor does not
 		// relate `!(x ≤ y)` to a later `x == y`): sign sets {−, 0, +} of a − b, intersected per difference
@@ -1490,30 +1513,41 @@ func c05MergeCoverage(c *Ctx, ct collapsingType) {
 		}
 		nPaths++
 		// beyond(X): evidence about "X lies beyond the receiver's collapsing edge": +1 taken, −1 refuted, 0 none
+		// facts: every order comparison of the path as a true statement a < b or a ≤ b (a refuted one is mirrored)
+		type ordFact struct {
+			strict bool
+			a, b   *Term
+		}
+		var facts []ordFact
+		for _, cd := range p.Conds {
+			t := cd.Term
+			if len(t.Args) != 2 || !(t.isBin("<") || t.isBin("<=")) {
+				continue
+			}
+			if cd.Taken {
+				facts = append(facts, ordFact{t.isBin("<"), t.Args[0], t.Args[1]})
+			} else {
+				facts = append(facts, ordFact{!t.isBin("<"), t.Args[1], t.Args[0]})
+			}
+		}
+		// beyond(X): evidence about "X lies beyond the receiver's collapsing edge": +1 taken, −1 refuted, 0 none
 		beyond := func(x *Linear) int {
 			r := 0
-			for _, cd := range p.Conds {
-				t := cd.Term
-				if !(t.isBin("<") || t.isBin("<=")) {
-					continue
+			for _, ft := range facts {
+				isBound := func(t *Term) bool { who, name := fld(t); return who == "s" && name == edgeBound }
+				// out: the fact reads "idx is strictly beyond the edge"; in: it reads "idx is at or inside the edge"
+				var out, in bool
+				if lowest {
+					out = ft.strict && isBound(ft.b) && eq(canon(ft.a), x)
+					in = isBound(ft.a) && eq(canon(ft.b), x)
+				} else {
+					out = ft.strict && isBound(ft.a) && eq(canon(ft.b), x)
+					in = isBound(ft.b) && eq(canon(ft.a), x)
 				}
-				var idxT, boundT *Term
-				if lowest { // idx < s.min
-					idxT, boundT = t.Args[0], t.Args[1]
-				} else { // s.max < idx
-					idxT, boundT = t.Args[1], t.Args[0]
-				}
-				if who, name := fld(boundT); who != "s" || name != edgeBound {
-					continue
-				}
-				if !eq(canon(idxT), x) {
-					continue
-				}
-				strict := t.isBin("<")
 				switch {
-				case cd.Taken && strict:
+				case out:
 					r = 1
-				case !cd.Taken:
+				case in:
 					if r == 0 {
 						r = -1
 					}
@@ -1547,6 +1581,7 @@ func c05MergeCoverage(c *Ctx, ct collapsingType) {
 				continue
 			}
 			nAdds++
+			liveAdds[e.Instr] = true
 			idx := linCombine(canon(src.Args[1]), fieldLin("o", dr.offset), 1) // the argument index read
 			want := plus(fieldLin("o", first), dir*k)
 			if !eq(idx, want) {
@@ -1587,17 +1622,7 @@ func c05MergeCoverage(c *Ctx, ct collapsingType) {
 				} else {
 					continue
 				}
-				fwd := func(x, y *Linear) bool { // x ⋈ y speaks of (next, last) in iteration order
-					if lowest {
-						return eq(x, next) && eq(y, lastL)
-					}
-					return eq(x, lastL) && eq(y, next)
-				}
 				switch {
-				case t.isBin("<=") && fwd(a, b) && !cd.Taken: // !(next ≤ last)
-					done = true
-				case t.isBin("<") && fwd(a, b) && !cd.Taken: // !(next < last)
-					ltRef = true
 				case t.isBin("==") && (eq(a, next) && eq(b, lastL) || eq(b, next) && eq(a, lastL)) && !cd.Taken:
 					eqRef = true
 				case t.isBin("!=") && (eq(a, next) && eq(b, lastL) || eq(b, next) && eq(a, lastL)) && cd.Taken:
@@ -1611,6 +1636,18 @@ func c05MergeCoverage(c *Ctx, ct collapsingType) {
 					}
 				}
 			}
+			for _, ft := range facts { // "next is past last" in iteration order, strictly (done) or not (with ≠: done)
+				x, y := canon(ft.a), canon(ft.b)
+				past := eq(x, lastL) && eq(y, next)
+				if !lowest {
+					past = eq(x, next) && eq(y, lastL)
+				}
+				if past && ft.strict {
+					done = true
+				} else if past {
+					ltRef = true
+				}
+			}
 			if ltRef && eqRef {
 				done = true
 			}
@@ -1620,6 +1657,11 @@ func c05MergeCoverage(c *Ctx, ct collapsingType) {
 		}
 		if pathBad != "" {
 			bad = firstNonEmpty(bad, pathBad+" on ["+pathSig(p)+"]")
+		}
+	}
+	for ins := range allAdds {
+		if !liveAdds[ins] && bad == "" {
+			bad = "the add at " + c.P.pos(ins.Pos()) + " lies only on paths whose comparisons contradict each other (a loop around it never advances)"
 		}
 	}
 	c.R.check(bad == "" && nPaths > 0 && nAdds > 0, rule, tname+".MergeWith/every-bin-once", shortFn(f), c.fpos(f),
